@@ -144,7 +144,9 @@ def case_random(ctx, rng):
         perm = None if rng.random() < 0.1 else tuple(rng.sample(range(x.ndim), x.ndim))
         check_transpose(ctx, x, perm, "random")
         return
-    a, b, axa, axb = gen.contractible_pair(sr, rng, sym, True, maxnd=3 if rng.random() < 0.85 else 4, values=vals, maxd=2, p_ragged=0.1, p_hist=0.1, p_mixclass=0.08)
+    lk = rng.choice(["int", "int", "tuple", "str"])
+    ctx.count("labels", lk)
+    a, b, axa, axb = gen.contractible_pair(sr, rng, sym, True, maxnd=3 if rng.random() < 0.85 else 4, values=vals, maxd=2, p_ragged=0.1, p_hist=0.1, p_mixclass=0.08, label_kind=lk)
     if rng.random() < 0.25:
         # operands that already carry several labels (outer products with a one-element odd
         # tensor: the product is even / odd with two labels)
@@ -159,7 +161,7 @@ def case_random(ctx, rng):
         which = rng.choice(["a", "b", "both"])
         if which in ("a", "both") and a.blocks:
             front = rng.random() < 0.5
-            a2 = dress(a, 700001, front)
+            a2 = dress(a, gen.as_label(lk, 700001), front)
             if a2 is not None:
                 a = a2
                 if front:
@@ -167,7 +169,7 @@ def case_random(ctx, rng):
                 ctx.count("feature", "multi-label-operand")
         if which in ("b", "both") and b.blocks:
             front = rng.random() < 0.5
-            b2 = dress(b, 700002, front)
+            b2 = dress(b, gen.as_label(lk, 700002), front)
             if b2 is not None:
                 b = b2
                 if front:
@@ -176,7 +178,7 @@ def case_random(ctx, rng):
         if rng.random() < 0.4 and a.blocks and len(labels_of(a)) >= 1:
             # the second operand is the (transposed) conjugate of the first, dressed again: its
             # labels are the conjugates in reverse order, so the pairs to evaluate are nested
-            a3 = dress(a, 700003, rng.random() < 0.5) if rng.random() < 0.6 else a
+            a3 = dress(a, gen.as_label(lk, 700003), rng.random() < 0.5) if rng.random() < 0.6 else a
             if a3 is not None:
                 a = a3
                 perm = tuple(rng.sample(range(a.ndim), a.ndim))
